@@ -248,6 +248,27 @@ func ruleWordReset(p *Prog, r *Result) {
 		r.undecided("the scanner's arms do not merge in phis carrying the state variables")
 		return
 	}
+	// the flush at the end of the input: what is pending when the query ends inside a quoted literal is the content
+	// of that literal, not a word - it must not go through the word classifier (which folds case and turns `key`,
+	// `1`, `limit` into keywords and numbers). Every buildToken call behind the loop sits under `not in a literal`
+	nEnd := 0
+	allInstrs(fn, func(in ssa.Instruction) {
+		c, ok := in.(*ssa.Call)
+		if !ok || c.Call.StaticCallee() != bt || L.Body[in.Block()] {
+			return
+		}
+		nEnd++
+		outside := false
+		for _, a := range dominatingAtoms(in.Block()) {
+			if a.X != ssa.Value(hStr) {
+				continue
+			}
+			if bv, isB := constBool(a.Y); isB && ((a.Op == token.EQL) == bv) == false {
+				outside = true
+			}
+		}
+		r.add(outside, fmt.Sprintf("end-flush#%d|outside-literal", nEnd), p.InstrPos(in), "the pending bytes are classified as a word at the end of the input only when the scanner is not inside a quoted literal")
+	})
 	// which ways round the loop can be taken in string mode / outside it: the branch conditions on the in-string flag
 	// and on the current character are decided along the way (an early `if strStart && char != quote { ...; continue }`
 	// leaves the arms of ordinary characters reachable only outside string mode)
